@@ -14,7 +14,7 @@ PROP = "C11"
 EV_OP, EV_OP_RET, EV_HOOK_START, EV_HOOK_STOP, EV_CB, EV_LATE, EV_FAULT, EV_RES, EV_TIMEOUT, EV_NOTE = range(1, 11)
 (OP_CREATE, OP_THREADS_CREATE, OP_ATTACH_FIRST, OP_SENDERS_START, OP_SENDERS_STOP, OP_ARM_EVENTS,
  OP_SHUTDOWN_MAIN, OP_SHUTDOWN_EXT, OP_SHUTDOWN_POOL, OP_WAIT_MAIN, OP_WAIT_POOL, OP_DESTROY_MAIN, OP_DESTROY_POOL,
- OP_SLEEP_US, OP_GO, OP_JOIN_HELPERS, OP_THREADS_CREATE_AGAIN, OP_GATE, OP_FLOOD, OP_UNGATE) = range(1, 21)
+ OP_SLEEP_US, OP_GO, OP_JOIN_HELPERS, OP_THREADS_CREATE_AGAIN, OP_GATE, OP_FLOOD, OP_UNGATE, OP_WAIT_T0) = range(1, 22)
 OPN = {v: k for k, v in list(globals().items()) if k.startswith("OP_")}
 FK = ["none", "calloc", "epoll_create1", "pipe2", "epoll_ctl", "pthread_create"]
 EBUSY, EDEADLK = 16, 35
@@ -31,7 +31,7 @@ def build_all(report):
 def encode(sc):
     w = W()
     w.u64(sc["seed"]).u8(sc["pool"]).u32(sc["flags"]).u16(sc["perturb"]).u16(sc["sleep_us"]).u64(sc["point_mask"])
-    w.u8(sc["fk_kind"]).u32(sc["fk_k"]).u16(len(sc["ops"]))
+    w.u8(sc["fk_kind"]).u32(sc["fk_k"]).u32(sc.get("stop_hook_sleep_us", 0)).u16(len(sc["ops"]))
     for op, arg in sc["ops"]:
         w.u8(op).u32(arg)
     return w.done()
@@ -123,6 +123,15 @@ def gen_histories(tier, seed):
         if rng.below(4) == 0:
             ops.append((OP_SLEEP_US, 2000))
         out.append(mk(rng, ops, family=fam, **st))
+    # wait/destroy from the main thread while the attached first thread (and the workers) are still inside their stop hooks
+    for i in range(4 * scale):
+        st = settings()
+        ops = [(OP_CREATE, 0), (OP_THREADS_CREATE, 1), (OP_ATTACH_FIRST, 0), (OP_WAIT_T0, 0), (OP_SLEEP_US, rng.choice([0, 500, 3000])),
+               (OP_SHUTDOWN_MAIN, 0)]
+        if rng.below(2):
+            ops.append((OP_WAIT_MAIN, 1))
+        ops += [(OP_DESTROY_MAIN, 0), (OP_JOIN_HELPERS, 0)]
+        out.append(mk(rng, ops, family="destroy-while-attached-in-stop-hook", stop_hook_sleep_us=rng.choice([2000, 20000, 150000]), **st))
     # shutdown while a busy worker's message queue is completely full (the stop request must not get lost)
     for i in range(4 * scale):
         st = settings()
